@@ -173,7 +173,7 @@ template<class V> std::string seq_probe(const std::string& name, const V& v)
          return std::string("ok");
       });
       s += "n" + std::to_string(n) + (walk == "ok" ? "" : ":WALK-" + walk) + (count == n or walk != "ok" ? "" : ":COUNT" + std::to_string(count)) + (agree ? "" : ":DISAGREE");
-      if (walk2 != "ok") s += ":WALK-" + walk2;
+      if (walk2 != "ok") s += ":WALK2-" + walk2;        // backwards / postfix walks (a refusal here is legitimate only if the forward walk was refused too)
       else if (back != n or backp != n or fwdp != n) s += ":COUNT" + std::to_string(back) + "/" + std::to_string(backp) + "/" + std::to_string(fwdp);
       if (not agree2) s += ":DISAGREE";
       const std::size_t idx[] = { n, n + 1, n + 1000000, std::size_t(-1) / 2, std::size_t(-1) };
